@@ -59,17 +59,17 @@ EXTENDS Align, TLAPS
         a = 1 << k
         out.append(f"""
 THEOREM Up_{k} == \\A v \\in Nat : IsAlignUp({a}, v, AlignUp({a}, v))
-  BY Z3 DEF IsAlignUp, AlignUp
+  BY Z3T(60) DEF IsAlignUp, AlignUp
 THEOREM UpLeast_{k} == \\A v \\in Nat, x \\in Nat : (x % {a} = 0 /\\ x >= v) => x >= AlignUp({a}, v)
-  BY Z3 DEF AlignUp
+  BY Z3T(60) DEF AlignUp
 THEOREM Down_{k} == \\A v \\in Nat : IsAlignDown({a}, v, AlignDown({a}, v))
-  BY Z3 DEF IsAlignDown, AlignDown
+  BY Z3T(60) DEF IsAlignDown, AlignDown
 THEOREM DownGreatest_{k} == \\A v \\in Nat, x \\in Nat : (x % {a} = 0 /\\ x <= v) => x <= AlignDown({a}, v)
-  BY Z3 DEF AlignDown
+  BY Z3T(60) DEF AlignDown
 LEMMA UpNat_{k} == \\A v \\in Nat : AlignUp({a}, v) \\in Nat /\\ AlignUp({a}, v) % {a} = 0
-  BY Z3 DEF AlignUp
+  BY Z3T(60) DEF AlignUp
 LEMMA ModClosed_{k} == \\A v \\in Nat, r \\in Nat : AlignModulo({a}, r, v) = AlignUp({a}, v) + (r % {a})
-  BY UpNat_{k}, Z3T(30) DEF AlignModulo
+  BY UpNat_{k}, Z3T(60) DEF AlignModulo
 THEOREM Mod_{k} == \\A v \\in Nat, r \\in Nat : IsAlignModulo({a}, r, v, AlignModulo({a}, r, v))
 <1> TAKE v \\in Nat, r \\in Nat
 <1>1. AlignUp({a}, v) \\in Nat /\\ AlignUp({a}, v) % {a} = 0
@@ -77,14 +77,14 @@ THEOREM Mod_{k} == \\A v \\in Nat, r \\in Nat : IsAlignModulo({a}, r, v, AlignMo
 <1>2. AlignModulo({a}, r, v) = AlignUp({a}, v) + (r % {a})
   BY ModClosed_{k}
 <1>3. r % {a} \\in 0..{a - 1}
-  BY Z3
+  BY Z3T(60)
 <1>4. (AlignUp({a}, v) + (r % {a})) % {a} = r % {a}
-  BY <1>1, <1>3, Z3T(30)
+  BY <1>1, <1>3, Z3T(60)
 <1> QED
-  BY <1>1, <1>2, <1>3, <1>4, Z3T(30) DEF IsAlignModulo
+  BY <1>1, <1>2, <1>3, <1>4, Z3T(60) DEF IsAlignModulo
 THEOREM ModLeast_{k} == \\A v \\in Nat, r \\in Nat, x \\in Nat :
     (x >= AlignUp({a}, v) /\\ x % {a} = r % {a}) => x >= AlignModulo({a}, r, v)
-  BY UpNat_{k}, ModClosed_{k}, Z3T(30)""")
+  BY UpNat_{k}, ModClosed_{k}, Z3T(60)""")
     out.append("\n=============================================================================\n")
     return "\n".join(out)
 
@@ -113,13 +113,21 @@ def check_proofs(ctx, cov):
     work.mkdir(parents=True)
     for f in ("Align.tla", "Align_proofs.tla"):
         shutil.copy(SPECS / f, work / f)
-    r = sh(["tlapm", "--threads", "4", "Align_proofs.tla"], timeout=1500, cwd=work)
-    out = r.out + r.err
-    if r.timed_out:
-        raise ToolError("tlapm timed out on Align_proofs.tla")
-    m = re.search(r"All (\d+) obligations? proved", out)
+    # tlapm keeps the fingerprints of proved obligations in the work directory: a re-run only retries
+    # what failed (an SMT timeout on a loaded machine is not a disproof)
+    m = None
+    for attempt in range(3):
+        r = sh(["tlapm", "--threads", "4", "Align_proofs.tla"], timeout=1500, cwd=work)
+        out = r.out + r.err
+        if r.timed_out:
+            raise ToolError("tlapm timed out on Align_proofs.tla")
+        m = re.search(r"All (\d+) obligations? proved", out)
+        if m and r.rc == 0:
+            break
+        log(f"C29: tlapm attempt {attempt + 1}: not all obligations proved, retrying the failed ones")
     if not m or r.rc != 0:
         raise ToolError("tlapm did not prove Align_proofs.tla:\n" + out[-3000:])
+    cov["proof_attempts"] = attempt + 1
     n = int(m.group(1))
     cov["obligations"] = cov["discharged"] = n
     cov["proof_cached"] = False
